@@ -34,7 +34,7 @@ def run_seed(d):
 
 def main():
     pat = sys.argv[1] if len(sys.argv) > 1 else ""
-    dirs = sorted(glob.glob("/verif/benign/*"))
+    dirs = sorted(d for d in glob.glob("/verif/benign/*") if os.path.isdir(d))
     dirs = [d for d in dirs if pat in d]
     out = {}
     with ThreadPoolExecutor(max_workers=4) as ex:
